@@ -106,6 +106,7 @@ def msgStr : Msg → String
   | .recvNotif p => s!"recv-notif hdr={hdrStr p.header} set={setStr p.setting} mk={hx p.msgKey} exp={p.expire} mid={hx p.messageID} mseq={p.messageSeq} no={hx p.clientMsgNo} sno={hx p.streamNo} sid={hx p.streamID} sflag={p.streamFlag} ts={p.timestamp} ch={hx p.channelID} ct={p.channelType} top={hx p.topic} from={hx p.fromUID} pl={hx p.payload}"
   | .eventNotif p => s!"event-notif hdr={hdrStr p.header} id={hx p.id} type={hx p.type} ts={p.timestamp} data={hx p.data}"
   | .disconnectNotif p => s!"disconnect-notif rc={p.reasonCode} reason={hx p.reason}"
+  | .pongResp id => s!"generic-resp id={hx id} result=7b7d"   -- `{}`
   | _ => "unexpected"
 
 def Kind.str : Kind → String
